@@ -7,13 +7,14 @@ Model: `modesChecksum` (Model/Decode/Checksum.lean, over the table regenerated f
 every run) and `Message.tryFrom` / `decodeBuf` / `df` (Model/Decode/Message.lean).
 Spec: Spec/Crc.lean — bit-serial long division by the 25-bit generator 0x1FFF409, written
 from the standard.  Helper lemmas: Proofs/Crc.lean (algebra), Proofs/CrcModel.lean (the
-table-driven loop), Proofs/CrcGate.lean (gate and `icao24`).
+table-driven loop), Proofs/CrcGate.lean (the checksum gate), Proofs/CrcIcao.lean (`icao24`).
 
 Every statement quantifies over *all* inputs of its domain (induction over the byte/bit
 list, XOR-linearity of the division); the only enumerations are the 256 table rows, the
 256 values of the byte shifted out of the register, and the 111 distances of a double error.
 -/
-import Rs1090.Proofs.CrcGate
+import Rs1090.Proofs.CrcIcao
+import Rs1090.Gen.CrcGate
 namespace Rs1090.Props.C02
 open Rs1090 Rs1090.Spec.Crc Rs1090.Model Rs1090.Model.Message Rs1090.Proofs.Crc
 
@@ -39,6 +40,57 @@ def flip1 (i : Nat) : List Bool := zeros i ++ [true] ++ zeros (111 - i)
 
 /-- exactly bits `i < j` of 112 -/
 def flip2 (i j : Nat) : List Bool := zeros i ++ pair (j - i) ++ zeros (111 - j)
+
+/-- `flip1 i` has exactly bit `i` set -/
+theorem flip1_spec (i k : Nat) (hi : i < 112) (hk : k < 112) : (flip1 i)[k]? = some (decide (k = i)) := by
+  simp only [flip1, zeros, List.append_assoc, List.getElem?_append, List.length_replicate,
+    List.getElem?_replicate, List.cons_append, List.nil_append]
+  by_cases h1 : k < i
+  · simp [h1]; omega
+  · simp only [h1, ↓reduceIte]
+    by_cases h2 : k = i
+    · subst h2; simp
+    · have : k - i = (k - i - 1) + 1 := by omega
+      rw [this, List.getElem?_cons_succ, List.getElem?_replicate]
+      simp [h2]; omega
+
+/-- `flip2 i j` has exactly bits `i` and `j` set -/
+theorem flip2_spec (i j k : Nat) (hij : i < j) (hj : j < 112) (hk : k < 112) :
+    (flip2 i j)[k]? = some (decide (k = i ∨ k = j)) := by
+  simp only [flip2, pair, zeros, List.append_assoc, List.getElem?_append, List.length_replicate,
+    List.getElem?_replicate, List.cons_append, List.nil_append]
+  by_cases h1 : k < i
+  · simp [h1]; omega
+  · simp only [h1, ↓reduceIte]
+    by_cases h2 : k = i
+    · subst h2; simp
+    · have : k - i = (k - i - 1) + 1 := by omega
+      rw [this, List.getElem?_cons_succ, List.getElem?_append, List.length_replicate, List.getElem?_replicate]
+      by_cases h3 : k < j
+      · have : k - i - 1 < j - i - 1 := by omega
+        simp [this]; omega
+      · have : ¬ k - i - 1 < j - i - 1 := by omega
+        simp only [this, ↓reduceIte]
+        by_cases h4 : k = j
+        · subst h4
+          have : k - i - 1 - (k - i - 1) = 0 := by omega
+          simp [this]
+        · have : k - i - 1 - (j - i - 1) = (k - j - 1) + 1 := by omega
+          rw [this, List.getElem?_cons_succ, List.getElem?_replicate]
+          simp [h2, h4]; omega
+
+/-! ## 0. The specification itself -/
+
+/-- `polyMod` (24-bit register, generator without its leading term) *is* schoolbook long
+    division of the bit string by the full 25-bit generator 0x1FFF409 on plain numbers
+    (`polyModNat`: bring down a bit; if the degree-24 coefficient is set, XOR the generator). -/
+theorem spec_is_long_division (bs : List Bool) : polyModNat bs = (polyMod bs).toNat :=
+  polyModNat_eq bs
+
+/-- … so, in the terms of the standard: the checksum of every frame is its remainder -/
+theorem checksum_eq_long_division (frame : List Nat) (hn : 3 ≤ frame.length) (hb : Bytes frame) :
+    modesChecksum frame (8 * frame.length) = .ok (polyModNat (bits frame)) := by
+  rw [spec_is_long_division]; exact modesChecksum_eq frame hn hb
 
 /-! ## 1. The table -/
 
@@ -80,6 +132,32 @@ theorem df17_gate (frame : List Nat) (hl : frame.length = 14) (hb : Bytes frame)
     (hdf : dfField frame = 17) :
     tryFrom frame = if polyMod (bits frame) = 0#24 then wrap (parseDF 0 frame) else .err .assertion :=
   tryFrom_df17 frame hl hb hdf
+
+/-- **The gate in the source text is the gate of the model.**  `Gen.CrcGate` is re-extracted from
+    `Message::from_reader_with_ctx` on every run (which DF is gated, the comparison and its
+    literal, the context handed to the `DF` parser and stored by `IcaoParity`); with *those*
+    definitions the model's `decodeBuf` is: reject with the assertion error iff DF = `GATE_DF` and
+    `gateRejects crc`, else parse with the checksum as context.  Editing the guard in mod.rs
+    (`c > 1`, another DF, an extra conjunct) breaks this theorem or the extractor. -/
+theorem gate_source_ok (b0 : Nat) (buf : List Nat) (crc : Nat)
+    (h : modesChecksum buf (frameBits b0) = .ok crc) :
+    decodeBuf b0 buf =
+      if (b0 >>> 3 == Gen.CrcGate.GATE_DF) && Gen.CrcGate.gateRejects crc then .err .assertion
+      else parseDF (Gen.CrcGate.icaoOfCtx crc) buf := by
+  have hG : Gen.CrcGate.GATE_DF = 17 := rfl
+  have hR : Gen.CrcGate.gateRejects crc = decide (crc > 0) := rfl
+  have hI : Gen.CrcGate.icaoOfCtx crc = crc := rfl
+  rw [hG, hR, hI]
+  unfold decodeBuf
+  rw [h]
+  by_cases hp : b0 >>> 3 = 17 ∧ crc > 0
+  · simp [hp]
+  · have hp' : ¬ (b0 >>> 3 = 17 ∧ 0 < crc) := hp
+    simp only [Bool.and_eq_true, beq_iff_eq, decide_eq_true_eq, gt_iff_lt, hp', ↓reduceIte]
+    rfl
+
+/-- all six address/parity variants (DF 0, 4, 5, 16, 20, 21) receive the checksum unchanged -/
+theorem ap_fields_ok : Gen.CrcGate.AP_FIELDS = 6 := by decide
 
 /-- Only DF 17 is gated: for every other format the remainder never rejects the frame, it is
     handed to the `DF` parser as context. -/
@@ -310,5 +388,44 @@ theorem ap_recover (data : List Nat) (a : Nat) (hd : Bytes data) (ha : a < 2 ^ 2
           have h := hlast fs rfl
           obtain ⟨ini, rfl⟩ := List.getLast?_eq_some_iff.1 h
           simp [Fields.toObj, fld]
+
+/-! ## Satisfiability of the hypotheses (frames from the repository's own tests) -/
+
+/-- crc.rs `test_crc`, first frame: a valid DF17 transmission … -/
+example : ValidDF17 [0x8d,0x40,0x6b,0x90,0x20,0x15,0xa6,0x78,0xd4,0xd2,0x20,0xaa,0x4b,0xda] :=
+  ⟨by decide, by decide, by decide, by decide +kernel⟩
+
+/-- … which is accepted as DF17 … -/
+example : AcceptedDF17 [0x8d,0x40,0x6b,0x90,0x20,0x15,0xa6,0x78,0xd4,0xd2,0x20,0xaa,0x4b,0xda] := by
+  refine ⟨by decide, ?_⟩
+  have h : (tryFrom [0x8d,0x40,0x6b,0x90,0x20,0x15,0xa6,0x78,0xd4,0xd2,0x20,0xaa,0x4b,0xda]).isOk = true := by
+    decide +kernel
+  revert h
+  cases tryFrom [0x8d,0x40,0x6b,0x90,0x20,0x15,0xa6,0x78,0xd4,0xd2,0x20,0xaa,0x4b,0xda] with
+  | ok d => intro _; exact ⟨d, rfl⟩
+  | err e => intro h; cases h
+  | panic x => intro h; cases h
+
+/-- … while `test_invalid_crc`-style corruption of its last bit is not (instance of `single_bit`) -/
+example : corrupt [0x8d,0x40,0x6b,0x90,0x20,0x15,0xa6,0x78,0xd4,0xd2,0x20,0xaa,0x4b,0xda] (flip1 111)
+    = [0x8d,0x40,0x6b,0x90,0x20,0x15,0xa6,0x78,0xd4,0xd2,0x20,0xaa,0x4b,0xdb] := by decide +kernel
+
+/-- crc.rs `test_crc`: `a0000410bc900010a40000f5f477` (DF20) has remainder 11727682 -/
+example : modesChecksum [0xa0,0x00,0x04,0x10,0xbc,0x90,0x00,0x10,0xa4,0x00,0x00,0xf5,0xf4,0x77] 112
+    = .ok 11727682 := by decide +kernel
+
+/-- that frame *is* `encodeAP` of its first 11 bytes and the address 0xb2f342 = 11727682 -/
+example : encodeAP [0xa0,0x00,0x04,0x10,0xbc,0x90,0x00,0x10,0xa4,0x00,0x00] 11727682
+    = [0xa0,0x00,0x04,0x10,0xbc,0x90,0x00,0x10,0xa4,0x00,0x00,0xf5,0xf4,0x77] := by decide +kernel
+
+example : APShape [0xa0,0x00,0x04,0x10,0xbc,0x90,0x00,0x10,0xa4,0x00,0x00] := by
+  right; exact ⟨by decide, by decide⟩
+
+/-- and the model accepts it (the premise of `ap_recover`'s second clause is satisfiable) -/
+example : (tryFrom (encodeAP [0xa0,0x00,0x04,0x10,0xbc,0x90,0x00,0x10,0xa4,0x00,0x00] 11727682)).isOk = true := by
+  decide +kernel
+
+/-- a short one: DF4, altitude code 0x0518… any address -/
+example : (tryFrom (encodeAP [0x20,0x00,0x05,0x18] 0xabcdef)).isOk = true := by decide +kernel
 
 end Rs1090.Props.C02
